@@ -112,7 +112,7 @@ func c20History(t *testing.T, seed uint64, mode string) rt.Result {
 	var ops []porcupine.Operation
 	verdict := ""
 	lisDelay := time.Duration(0)
-	if mode == "closing" && seed%2 == 0 {
+	if mode == "closing" && mix(seed)%2 == 0 {
 		// Serve takes a while to close its listener: registry calls land between Close's
 		// signal and Serve's own shutdown of the peers
 		lisDelay = 300 * time.Microsecond
@@ -207,7 +207,7 @@ func c20History(t *testing.T, seed uint64, mode string) rt.Result {
 // ------------------------------------------------------------ behaviour
 
 func c20Behaviour(t *testing.T, kind string, seed uint64) rt.Result {
-	hook := []int{hz.HookVSleep, hz.HookOff, hz.HookYield}[seed/2%3] // who wins a race at one instant differs by mode
+	hook := []int{hz.HookVSleep, hz.HookOff, hz.HookYield}[mix(seed)/2%3] // who wins a race at one instant differs by mode
 	out := hz.Run(t, hz.Opts{Seed: seed, HookMode: hook, NoServe: kind == "before-serve" || kind == "serve-after-close"}, func(w *hz.World) {
 		a := netip.MustParseAddr("10.0.1.1")
 		b := netip.MustParseAddr("10.0.1.2")
@@ -299,7 +299,7 @@ func c20Behaviour(t *testing.T, kind string, seed uint64) rt.Result {
 			for k := 0; k < 40; k++ { // many peers: whatever is started has time to act before it is stopped again
 				w.MustAddPeer(hz.StdPeer(fmt.Sprintf("10.0.3.%d", k+1)))
 			}
-			if seed%2 == 0 {
+			if mix(seed)%2 == 0 {
 				w.Serve()
 				time.Sleep(time.Second)
 			}
